@@ -154,3 +154,15 @@ Theorem C16_v110_pool_migration_bounds :
   (0 <= w /\ 0 <= se /\ w + se <= l) <-> (0 <= v1_withdrawn p /\ v1_lmv p - v1_lmw p <= v1_vested p - v1_withdrawn p /\ v1_lmw p <= v1_lmv p).
 Proof. exact v1_pool_migration_bounds. Qed.
 Print Assumptions C16_v110_pool_migration_bounds.
+
+(* v1.1.0 (consensus version 1 -> 2), the distributor's state store: when no two old states end up under the same new key,
+   no amount is negative and every non-burn state has an account, the migration succeeds, writes one new state per old state —
+   under the key of its account, the burn state under the burn key without account — and every state keeps its remains: per
+   denomination the store holds together exactly what it held before *)
+Theorem C16_v110_distributor_states_keep_their_remains :
+  forall bkey l, NoDup (map (v1d_newkey bkey) l) -> Forall v1d_clean l ->
+  exists st, migrate_v1_dstates bkey l [] = Ok st /\ length st = length l /\
+    (forall s, In s l -> In (v1d_newkey bkey s, (vd_burn s, negb (vd_burn s), vd_coins s)) st) /\
+    forall d, zsum (map (fun e => dcoins_of d (snd (snd e))) st) = zsum (map (fun s => dcoins_of d (vd_coins s)) l).
+Proof. exact v1_dstates_migration_keeps_remains. Qed.
+Print Assumptions C16_v110_distributor_states_keep_their_remains.
